@@ -59,17 +59,25 @@ def candidates(path, text):
     # cut test modules
     end = len(lines)
     for i, l in enumerate(lines):
-        if l.strip() == '#[cfg(test)]' and i + 1 < len(lines) and lines[i + 1].strip().startswith('mod '):
+        if l.strip() == '#[cfg(test)]' and any(x.strip().startswith('mod ') for x in lines[i + 1:i + 4]):
             end = i
             break
     out = []
     depth_skip = False
+    skip_item = False
     for i in range(end):
         l = lines[i]
         s = l.strip()
+        if s == '#[cfg(test)]':
+            skip_item = True  # a test-only item: skip to the closing brace in column 0
+            continue
+        if skip_item:
+            if l.startswith('}') or (l.rstrip().endswith(';') and not l.startswith(' ')):
+                skip_item = False
+            continue
         if not s or s.startswith('//') or s.startswith('#[') or s.startswith('use ') or s.startswith('pub use '):
             continue
-        if 'verif_hooks' in l or 'failspot' in l.lower() and 'fail_point' not in l.lower():
+        if s.startswith(('assert!', 'assert_eq!', 'debug_assert', 'log::', 'tracing::')) or 'verif_hooks' in l or 'failspot' in l.lower() and 'fail_point' not in l.lower():
             continue
         c = code_part(l)
         for a, b in SWAPS:
@@ -125,6 +133,8 @@ if not os.path.isdir(REPO):
     rc, o = sh(['git', '-C', '/repo', 'worktree', 'add', '--detach', REPO, 'HEAD'])
     assert rc == 0, o
     shutil.copy('/repo/Cargo.lock', REPO)
+else:
+    sh(['git', '-C', REPO, 'checkout', '--', 'src'])
 if not os.path.isdir(VER):
     os.makedirs(VER)
     rc, o = sh('git -C /verif archive HEAD | tar -x -C ' + VER)
